@@ -96,6 +96,22 @@ func c14Case(c *core.Ctx, idx int) {
 		rec.Violation("descriptor", fmt.Sprintf("the Descriptor does not mirror the type definition [%s]: %s\n  type %s", tc.name, diff, typeString(tc.typ)), map[string]any{"type": typeString(tc.typ)})
 		return
 	}
+	// a Descriptor that has been walked with still mirrors the type
+	if idx%3 == 0 {
+		v := (&gen.VG{R: c.RandFor(idx, "walk"), C: tc.cfg, Budget: 60}).Value(tc.typ, "")
+		if data, err, pn := marshal(tc.p, nil, ptrTo(v)); err == nil && pn == "" && len(data) > 0 {
+			core.Guard(func() {
+				var jo plenccodec.JSONOutput
+				_ = d.Read(&jo, data)
+			})
+			rec.Eval(1)
+			if diff := model.DescDiff(want, realDesc{&d}, "$", true); diff != "" {
+				rec.Violation("descriptor", fmt.Sprintf("after Descriptor.Read was called on it, the Descriptor no longer mirrors the type definition [%s]: %s\n  type %s", tc.name, diff, typeString(tc.typ)), map[string]any{"type": typeString(tc.typ)})
+				return
+			}
+			rec.Count("descriptors_checked_after_a_walk", 1)
+		}
+	}
 	// the same type through a second instance whose registration for time.Time differs (the BigQuery
 	// codec): a Descriptor mirrors the codecs of the instance it was asked from, not those of the
 	// instance that happened to describe the type first
@@ -182,7 +198,32 @@ func c13Case(c *core.Ctx, idx int) {
 		rec.Violation("valid-type-rejected", fmt.Sprintf("[%s] %v\n  type %s", tc.name, err, typeString(tc.typ)), nil)
 		return
 	}
+	// in a third of the cases the first descriptions of the type are taken by four goroutines at once;
+	// each of them is walked with later on
+	var early []plenccodec.Descriptor
+	if idx%3 == 2 {
+		early = make([]plenccodec.Descriptor, 4)
+		var wg sync.WaitGroup
+		start := make(chan struct{})
+		for w := range early {
+			wg.Add(1)
+			go func(w int) {
+				defer wg.Done()
+				<-start
+				core.Guard(func() { early[w] = codec.Descriptor() })
+			}(w)
+		}
+		close(start)
+		wg.Wait()
+	}
 	d := codec.Descriptor()
+	pristine := codec.Descriptor()
+	defer func() {
+		// walking with a Descriptor only reads it: after all the walks of the case it is what it was
+		if !reflect.DeepEqual(d, pristine) {
+			rec.Violation("descriptor-modified", fmt.Sprintf("[%s] Descriptor.Read changed the Descriptor it was called on (elements re-ordered or rewritten)\n  type %s", tc.name, typeString(tc.typ)), caseExtra(tc, reflect.Value{}, nil))
+		}
+	}()
 	// the descriptor serialised and restored through plenc itself and through encoding/json
 	var viaPlenc, viaJSON plenccodec.Descriptor
 	pd, err, pn := marshal(tc.p, nil, &d)
@@ -303,6 +344,16 @@ func c13Case(c *core.Ctx, idx int) {
 			}
 		}
 		walked, rendered = append(walked, data), append(rendered, out)
+		if j < 3 {
+			for w := range early {
+				o, e, pn := renderJSON(&early[w], data)
+				rec.Eval(1)
+				if e != nil || pn != "" || !bytes.Equal(o, out) {
+					rec.Violation("descriptor-restored", fmt.Sprintf("one of four descriptors taken at the same moment as the type's first description (goroutine %d) renders differently from one taken afterwards (%v %s) %s\n  later   %q\n  early   %q", w, e, trunc1(pn), desc(), trunc1(string(out)), trunc1(string(o))), caseExtra(tc, v, data))
+					return
+				}
+			}
+		}
 		var out3 []byte
 		var err3 error
 		pn3 := core.Guard(func() {
